@@ -77,6 +77,8 @@ structure Facts where
   connFilterResetsEof : Bool
   /-- `DeleteHistoricVersions`: after deleting the empty current version the handle stops naming it (F71) -/
   emptyVersionForgotten : Bool
+  /-- `getHistoricRootsAndNodes` returns the chosen versions so that each comes after the chosen versions it supersedes (depth-first `supersededFirst`), and `DeleteHistoricVersions` deletes the version objects in that order (F93) -/
+  vacuumDeletesSupersededFirst : Bool
   connUpdateParsesBeforeAssigning : Bool
   /-- `ConnCursor.Column` returns nothing for an attribute an UPDATE does not mention -/
   connColumnHonoursNoChange : Bool
